@@ -390,7 +390,8 @@ def r8_closure(src, sites, fnkey):
                             q -= 2
                         start = st[q].start
                         recv_txt = src[st[q].start:st[recv_start].end]
-                        rep = f"{site['to']}(&{recv_txt}, Ghost(|{ps}| {{ {' '.join(lets)} {body} }}){extra})"
+                        bor = site.get("borrow", "&")   # "&mut " for `iter_mut()` chains
+                        rep = f"{site['to']}({bor}{recv_txt}, Ghost(|{ps}| {{ {' '.join(lets)} {body} }}){extra})"
                         edit = (start, st[close].end, rep)
                     else:
                         rep = f"{site['to']}(Ghost(|{ps}| {{ {' '.join(lets)} {body} }}){extra})"
@@ -401,3 +402,123 @@ def r8_closure(src, sites, fnkey):
             src = _rebuild(src, [edit])
             total += 1
     return src, total
+
+
+# --------------------------------------------------------------------------------------
+# R14: `continue` in for-loops (Verus: "for-loops do not yet support continue")
+# --------------------------------------------------------------------------------------
+def r14_continue_to_else(src):
+    """Inside a `for` body, a top-level statement `if C { S* continue; }` (no else) followed by REST becomes
+    `if C { S* } else { REST }`. Control flow is identical: REST runs exactly when the branch is not taken."""
+    n = 0
+    while True:
+        st = sig(lex(src))
+        edit = None
+        for i, t in enumerate(st):
+            if not (t.kind == "ident" and t.text == "for") or (i + 1 < len(st) and st[i + 1].text == "<"):
+                continue
+            # body '{'
+            j = i + 1
+            while j < len(st) and st[j].text != "{":
+                if st[j].text in ("(", "["):
+                    j = match_close(st, j)
+                j += 1
+            if j >= len(st):
+                continue
+            be = match_close(st, j)
+            k = j + 1
+            while k < be:
+                if st[k].kind == "ident" and st[k].text == "if":
+                    # find block
+                    b = k + 1
+                    while b < be and st[b].text != "{":
+                        if st[b].text in ("(", "["):
+                            b = match_close(st, b)
+                        b += 1
+                    e = match_close(st, b)
+                    has_else = e + 1 < be and st[e + 1].text == "else"
+                    if (not has_else and e - 2 > b - 1 and st[e - 1].text == ";" and st[e - 2].text == "continue") \
+                            or (not has_else and st[e - 1].text == "continue"):
+                        c0 = e - 2 if st[e - 1].text == ";" else e - 1
+                        # remove `continue;`, wrap REST (tokens e+1 .. be-1) in else { }
+                        edit = [(st[c0].start, st[e].start, ""), (st[e].end, st[e].end, " else {"), (st[be].start, st[be].start, "}\n")]
+                        break
+                    k = e + 1
+                    if has_else:
+                        # skip else chain
+                        while k < be and st[k].text == "else":
+                            b2 = k + 1
+                            while st[b2].text != "{":
+                                if st[b2].text in ("(", "["):
+                                    b2 = match_close(st, b2)
+                                b2 += 1
+                            k = match_close(st, b2) + 1
+                    continue
+                if st[k].text in OPEN:
+                    k = match_close(st, k)
+                k += 1
+            if edit:
+                break
+        if not edit:
+            break
+        src = _rebuild(src, edit)
+        n += 1
+    return src, n
+
+
+def r14_tail_continue(src):
+    """R14 (tail form): when the LAST statement of a `for` body is a `match`, a `continue;` that ends one of its
+    arm blocks is deleted. Control flow is identical: leaving that arm reaches the end of the loop body, which
+    is exactly what `continue` does. Nothing else is touched."""
+    n = 0
+    while True:
+        st = sig(lex(src))
+        edit = None
+        for i, t in enumerate(st):
+            if not (t.kind == "ident" and t.text == "for") or (i + 1 < len(st) and st[i + 1].text == "<"):
+                continue
+            j = i + 1
+            while j < len(st) and st[j].text != "{":
+                if st[j].text in ("(", "["):
+                    j = match_close(st, j)
+                j += 1
+            if j >= len(st):
+                continue
+            be = match_close(st, j)
+            # top-level `match` of the body whose block closes right before the body's `}`
+            k = j + 1
+            while k < be:
+                if st[k].kind == "ident" and st[k].text == "match":
+                    b = k + 1
+                    while b < be and st[b].text != "{":
+                        if st[b].text in ("(", "["):
+                            b = match_close(st, b)
+                        b += 1
+                    e = match_close(st, b)
+                    if e == be - 1:
+                        a = b + 1
+                        while a < e:
+                            if st[a].text == "=>" and st[a + 1].text == "{":
+                                ae = match_close(st, a + 1)
+                                if st[ae - 1].text == ";" and st[ae - 2].kind == "ident" and st[ae - 2].text == "continue":
+                                    edit = [(st[ae - 2].start, st[ae - 1].end, "")]
+                                    break
+                                a = ae + 1
+                                continue
+                            if st[a].text in OPEN:
+                                a = match_close(st, a)
+                            a += 1
+                    k = e + 1
+                    if edit:
+                        break
+                    continue
+                if st[k].text in OPEN:
+                    k = match_close(st, k)
+                k += 1
+            if edit:
+                break
+        if not edit:
+            break
+        src = _rebuild(src, edit)
+        n += 1
+    return src, n
